@@ -44,6 +44,14 @@ import (
 //   oncefree: free-running goroutines released by a barrier against one fresh
 //             HttpServer: landing / describe / health pages, __describe__ and
 //             Server.ProtocolHash; digests of everything each reader saw.
+//   codec:    a history of compressed unary responses against one fresh server
+//             in THIS binary: clients whose ResponseWriter fails after N bytes
+//             (before any byte / inside the body / only in the codec's trailing
+//             flush), single responses, and overlapping responses whose first
+//             member is a slow reader (blocks inside its first Write while the
+//             others run to completion); every completed response is decoded
+//             and must carry its OWN payload.  Model: the pooled-encoder model
+//             (each encoder in the pool at most once, never while checked out).
 //   race:     builds a small stand-alone driver (c40traffic.go + rpcutil.go +
 //             httputil.go, assembled with go build -overlay) with -race and
 //             runs it: 16 goroutines of mixed traffic against ONE server;
@@ -71,6 +79,8 @@ type c40In struct {
 	N        int      `json:"n,omitempty"`      // oncefree readers / race goroutines
 	Rounds   int      `json:"rounds,omitempty"` // race rounds per goroutine
 	Prefix   string   `json:"prefix,omitempty"`
+	Level    int      `json:"level,omitempty"` // codec: compression level
+	Hist     []c40Hop `json:"hist,omitempty"`  // codec: history of compressed responses
 }
 
 // ------------------------------------------------------- gated controller
@@ -892,6 +902,7 @@ func c40HarnessDir() string {
 const c40RaceMain = `package main
 
 import (
+	"encoding/json"
 	"fmt"
 	"os"
 	"strconv"
@@ -900,7 +911,11 @@ import (
 func main() {
 	g, _ := strconv.Atoi(os.Args[1])
 	r, _ := strconv.Atoi(os.Args[2])
-	errs, hr := c40Traffic(g, r)
+	var hist []c40Hop
+	if err := json.Unmarshal([]byte(os.Args[3]), &hist); err != nil {
+		panic(err)
+	}
+	errs, hr := c40Traffic(g, r, hist)
 	fmt.Printf("{\"errors\":%d,\"hook_runs\":%d}\n", errs, hr)
 }
 `
@@ -964,7 +979,8 @@ func c40RunRace(in c40In) CaseOut {
 	budget := 60*time.Second + time.Duration(in.Rounds)*4*time.Second
 	rctx, rcancel := context.WithTimeout(context.Background(), budget)
 	defer rcancel()
-	run := exec.CommandContext(rctx, bin, strconv.Itoa(in.N), strconv.Itoa(in.Rounds))
+	histJSON, _ := json.Marshal(in.Hist)
+	run := exec.CommandContext(rctx, bin, strconv.Itoa(in.N), strconv.Itoa(in.Rounds), string(histJSON))
 	run.Env = append(env, "GORACE=halt_on_error=0 exitcode=0 log_path="+filepath.Join(tmp, "racelog"))
 	run.WaitDelay = 5 * time.Second
 	var stdout, stderr bytes.Buffer
@@ -1009,9 +1025,146 @@ func c40RunRace(in c40In) CaseOut {
 }
 
 func c40RunRaceInner(in c40In) CaseOut {
-	errs, hr := c40Traffic(in.N, in.Rounds)
+	errs, hr := c40Traffic(in.N, in.Rounds, in.Hist)
 	return CaseOut{Coq: Pair(App("C40.Race", N(uint64(in.N)), N(uint64(in.Rounds))), App("C40.ORace", "true", N(0), N(uint64(errs)))),
 		Tags: []string{"race-inner"}, Nontrivial: true, Obs: map[string]any{"errors": errs, "hook_runs": hr}}
+}
+
+// ------------------------------------------------------------------- codec
+
+// c40RunCodec: a history of compressed unary responses (u_int(x) = x) against
+// one fresh server in THIS (non -race) binary: clients that hang up after N
+// bytes, single responses, and overlapping responses whose first member is a
+// slow reader; every completed response is decoded and must be its own x.
+func c40RunCodec(in c40In) CaseOut {
+	// The encoder pools are process-wide (one per codec and level). Two GC
+	// cycles empty every sync.Pool (primary -> victim -> dropped), so each case
+	// starts from empty pools and its history is the WHOLE history: a failing
+	// case replays on its own.
+	runtime.GC()
+	runtime.GC()
+	h, _, sf := c40NewHTTP("", nil)
+	defer sf.Close()
+	if err := h.SetCompressionLevel(in.Level); err != nil {
+		panic(err)
+	}
+	res, ncomp := c40CodecHistory(h, in.Hist)
+	tags := []string{"codec", fmt.Sprintf("level:%d", in.Level)}
+	naborts, nover := 0, 0
+	bad, afterAbort := false, false
+	for i, op := range in.Hist {
+		switch op.Op {
+		case "abort":
+			naborts++
+		case "overlap":
+			if len(op.Xs) > 1 {
+				nover++
+				if naborts > 0 && !afterAbort {
+					afterAbort = true
+					tags = append(tags, "overlap-after-abort")
+				}
+			}
+		}
+		for _, v := range res[i] {
+			if v == c40RespStuck {
+				tags = append(tags, "stuck")
+			}
+			if v < 0 {
+				bad = true
+			}
+		}
+	}
+	if bad {
+		tags = append(tags, "response-not-own-body")
+	}
+	if ncomp == 0 && nover > 0 {
+		tags = append(tags, "nothing-compressed")
+	}
+	hop := func(o c40Hop) string {
+		xs := func(v []int64) string { return ListOf(v, func(x int64) string { return N(uint64(x)) }) }
+		switch o.Op {
+		case "abort":
+			return App("C40.HAbort", N(uint64(o.Codec)), N(uint64(o.After)))
+		case "plain":
+			return App("C40.HPlain", N(uint64(o.Codec)), N(uint64(o.X)))
+		}
+		return App("C40.HOverlap", N(uint64(o.Codec)), xs(o.Xs))
+	}
+	resp := func(v int64) string {
+		switch {
+		case v == c40RespStuck:
+			return "C40.RStuck"
+		case v < 0:
+			return "C40.RBad"
+		}
+		return App("C40.ROwn", N(uint64(v)))
+	}
+	coqIn := App("C40.Codec", N(uint64(in.Level)), ListOf(in.Hist, hop))
+	coqObs := App("C40.OCodec", ListOf(res, func(r []int64) string { return ListOf(r, resp) }))
+	return CaseOut{Coq: Pair(coqIn, coqObs), Tags: tags, Nontrivial: nover > 0,
+		Obs: map[string]any{"responses": res, "compressed": ncomp}}
+}
+
+func c40CodecBoundary() []c40In {
+	var out []c40In
+	ab := func(codec, after, n int) []c40Hop {
+		var h []c40Hop
+		for i := 0; i < n; i++ {
+			h = append(h, c40Hop{Op: "abort", Codec: codec, After: after})
+		}
+		return h
+	}
+	for _, codec := range []int{0, 1} {
+		// the seeder's history: a round trip, three clients gone after 10 bytes,
+		// then overlapping responses with a slow reader
+		h := []c40Hop{{Op: "plain", Codec: codec, X: 1}}
+		h = append(h, ab(codec, 10, 3)...)
+		h = append(h, c40Hop{Op: "overlap", Codec: codec, Xs: []int64{101, 102}},
+			c40Hop{Op: "overlap", Codec: codec, Xs: []int64{103, 104, 105}}, c40Hop{Op: "plain", Codec: codec, X: 2})
+		out = append(out, c40In{Kind: "codec", Level: 2, Hist: h})
+	}
+	// where the client goes away: before any byte, inside the first bytes, in
+	// the body / trailing flush only, never
+	for _, after := range []int{0, 5, 10, 11, 40, 100, 1 << 20} {
+		for _, codec := range []int{0, 1} {
+			h := ab(codec, after, 3)
+			h = append(h, c40Hop{Op: "overlap", Codec: codec, Xs: []int64{int64(200 + after%50), 7}},
+				c40Hop{Op: "overlap", Codec: codec, Xs: []int64{8, 9, 10}})
+			out = append(out, c40In{Kind: "codec", Level: 2, Hist: h})
+		}
+	}
+	// no abort at all, both codecs interleaved
+	out = append(out, c40In{Kind: "codec", Level: 3, Hist: []c40Hop{
+		{Op: "overlap", Codec: 0, Xs: []int64{1, 2, 3}}, {Op: "overlap", Codec: 1, Xs: []int64{4, 5}},
+		{Op: "plain", Codec: 0, X: 6}, {Op: "overlap", Codec: 1, Xs: []int64{7}}, {Op: "overlap", Codec: 0, Xs: nil}}})
+	return out
+}
+
+func c40GenCodec(r *rand.Rand) c40In {
+	in := c40In{Kind: "codec", Level: 1 + r.Intn(4)}
+	n := 2 + r.Intn(6)
+	afters := []int{0, 3, 10, 11, 20, 60, 150, 400, 1 << 20}
+	for i := 0; i < n; i++ {
+		codec := r.Intn(2)
+		switch x := r.Intn(10); {
+		case x < 4:
+			k := 1 + r.Intn(3)
+			a := afters[r.Intn(len(afters))]
+			for j := 0; j < k; j++ {
+				in.Hist = append(in.Hist, c40Hop{Op: "abort", Codec: codec, After: a})
+			}
+		case x < 5:
+			in.Hist = append(in.Hist, c40Hop{Op: "plain", Codec: codec, X: int64(r.Intn(1000))})
+		default:
+			k := 2 + r.Intn(2)
+			var xs []int64
+			for j := 0; j < k; j++ {
+				xs = append(xs, int64(r.Intn(100000)))
+			}
+			in.Hist = append(in.Hist, c40Hop{Op: "overlap", Codec: codec, Xs: xs})
+		}
+	}
+	return in
 }
 
 // -------------------------------------------------------------- generators
@@ -1028,6 +1181,8 @@ func c40Run1(in c40In) CaseOut {
 		return c40RunRace(in)
 	case "race_inner":
 		return c40RunRaceInner(in)
+	case "codec":
+		return c40RunCodec(in)
 	}
 	panic("c40: bad kind " + in.Kind)
 }
@@ -1161,15 +1316,18 @@ func c40GenOnce(r *rand.Rand) c40In {
 
 func c40Gen(r *rand.Rand, n int, tier string) []c40In {
 	out := c40Boundary()
+	out = append(out, c40CodecBoundary()...)
 	if tier == "thorough" {
-		out = append(out, c40In{Kind: "race", N: 16, Rounds: 48})
+		out = append(out, c40In{Kind: "race", N: 16, Rounds: 48, Hist: c40RaceHistory()})
 	} else {
-		out = append(out, c40In{Kind: "race", N: 16, Rounds: 8})
+		out = append(out, c40In{Kind: "race", N: 16, Rounds: 8, Hist: c40RaceHistory()})
 	}
 	for len(out) < n {
 		switch x := r.Intn(100); {
-		case x < 80:
+		case x < 70:
 			out = append(out, c40GenNotify(r))
+		case x < 82:
+			out = append(out, c40GenCodec(r))
 		case x < 97:
 			out = append(out, c40GenOnce(r))
 		default:
@@ -1181,6 +1339,6 @@ func c40Gen(r *rand.Rand, n int, tier string) []c40In {
 
 func init() {
 	_ = sort.Ints
-	Register("C40", "boundary first (the two server_transport_test.go scenarios, second caller during a failing hook, two kinds, same kind with different capabilities, no hook, the zero binding, no threads; three Once scripts; three free-running page/hash reader groups; one -race run of 16 goroutines of mixed traffic), then random: 80% notifyTransport scripts (1-6 threads, 50% one binding / 30% two / 20% mixed incl. the zero binding, hook failure rate 0/20/50/80%, 12% without a hook, go/release/peek events incl. events naming no thread), 17% sync.Once scripts, 3% free-running readers. Non-trivial: a hook ran or two bindings were announced / f was entered / more than one reader / the race run. distinct = distinct input JSON",
+	Register("C40", "boundary first (the two server_transport_test.go scenarios, second caller during a failing hook, two kinds, same kind with different capabilities, no hook, the zero binding, no threads; three Once scripts; three free-running page/hash reader groups; one -race run of 16 goroutines of mixed traffic wrapped in a history of aborted responses before and slow-reader overlaps after; 17 compressed-response histories: the hang-up-after-10-bytes x3 then overlap history for gzip and zstd, hang-up point swept over 0/5/10/11/40/100/never for both codecs, no abort at all), then random: 70% notifyTransport scripts (1-6 threads, 50% one binding / 30% two / 20% mixed incl. the zero binding, hook failure rate 0/20/50/80%, 12% without a hook, go/release/peek events incl. events naming no thread), 12% compressed-response histories (aborts at 9 cut points, single and 2-3 overlapping responses, levels 1-4, both codecs), 15% sync.Once scripts, 3% free-running readers. Non-trivial: a hook ran or two bindings were announced / f was entered / more than one reader / the race run / a history with overlapping responses. distinct = distinct input JSON",
 		c40Gen, c40Run1)
 }
